@@ -479,7 +479,7 @@ pub fn random(corpus_dir: &str, scratch: &str, count: usize, c16: bool, trace: &
     let mut pair_no = 0usize;
     for cat in cats {
         let (pats, ids, res) = &usable[cat];
-        let wit: Vec<&str> = ["w_old", "w_new", "c1", "c2", "c3", "c4", "c5", "c6", "h_try_shapes.sol", "d_blank.sol", "d_empty.sol"].into_iter().filter(|w| ids.iter().any(|i| i == w)).collect();
+        let wit: Vec<&str> = ["w_old", "w_new", "c1", "c2", "c3", "c4", "c5", "c6", "h_try_shapes.sol", "d_blank.sol", "d_empty.sol", "d_wide0.sol", "d_wide1.sol"].into_iter().filter(|w| ids.iter().any(|i| i == w)).collect();
         for x in wit.iter() {
             for y in wit.iter() {
                 if x == y {
